@@ -7,6 +7,12 @@ fn show(a: AmountT) -> String {
     format!("{:?}", a)
 }
 
+// a panic (e.g. the decimal back-end leaving its range) is an outcome like any other: it must be the same outcome in
+// every configuration
+fn guard<F: FnOnce() -> String + std::panic::UnwindSafe>(f: F) -> String {
+    std::panic::catch_unwind(f).unwrap_or_else(|_| "panic".to_string())
+}
+
 macro_rules! corpus {
     ($Q:ty, $U:ty, $name:expr) => {{
         let us: Vec<$U> = <$U as Unit>::iter().collect();
@@ -16,23 +22,24 @@ macro_rules! corpus {
             for (j, v) in us.iter().enumerate() {
                 for a in &amounts {
                     let x: $Q = *a * *u;
-                    let c = x.convert(*v);
-                    println!("{} conv {} {} {} -> {} {:?}", $name, i, j, show(*a), show(c.amount()), c.unit());
                     let y: $Q = Amnt!(3.0) * *v;
-                    println!("{} cmp {} {} {} {:?} {} {}", $name, i, j, show(*a), PartialOrd::partial_cmp(&x, &y), x == y, x < y);
-                    let s = x + y;
-                    let d = x - y;
-                    println!("{} arith {} {} {} {} {} {}", $name, i, j, show(*a), show(s.amount()), show(d.amount()), show(x / y));
-                    println!("{} fmt {} {} {} [{}] [{:>12.3}] [{:+}] [{:+010.2}] [{:*^14}]", $name, i, j, show(*a), x, x, x, x, x);
+                    let (a, u, v) = (*a, *u, *v);
+                    println!("{} conv {} {} {} -> {}", $name, i, j, show(a), guard(move || { let c = x.convert(v); format!("{} {:?}", show(c.amount()), c.unit()) }));
+                    println!("{} cmp {} {} {} {}", $name, i, j, show(a), guard(move || format!("{:?} {} {}", PartialOrd::partial_cmp(&x, &y), x == y, x < y)));
+                    println!("{} add {} {} {} {}", $name, i, j, show(a), guard(move || show((x + y).amount())));
+                    println!("{} sub {} {} {} {}", $name, i, j, show(a), guard(move || show((x - y).amount())));
+                    println!("{} div {} {} {} {}", $name, i, j, show(a), guard(move || show(x / y)));
+                    println!("{} fmt {} {} {} {}", $name, i, j, show(a), guard(move || format!("[{}] [{:>12.3}] [{:+}] [{:+010.2}] [{:*^14}]", x, x, x, x, x)));
+                    let _ = u;
                 }
             }
         }
-        let f = <$Q as HasRefUnit>::_fit(Amnt!(1234.5));
-        println!("{} fit {} {:?}", $name, show(f.amount()), f.unit());
+        println!("{} fit {}", $name, guard(|| { let f = <$Q as HasRefUnit>::_fit(Amnt!(1234.5)); format!("{} {:?}", show(f.amount()), f.unit()) }));
     }};
 }
 
 fn main() {
+    std::panic::set_hook(Box::new(|_| {}));
     corpus!(Mass, MassUnit, "Mass");
     corpus!(Length, LengthUnit, "Length");
     corpus!(Duration, DurationUnit, "Duration");
